@@ -29,6 +29,9 @@ def run(ctx, crate):
     D.rule_every_line_painted(ctx, crate)
     D.rule_overwrite_covers_row(ctx, crate)
     D.rule_shift_full_frame(ctx, crate)
+    # "followed by the bar's current rendering": a frame that needs exactly as many rows as the terminal has is painted whole
+    # (the height test is strict, seed C01k), and rows are counted only for painted lines
+    D.rule_height_guard(ctx, crate)
     # "shows exactly the lines printed so far": println through the bar is never rate limited away
     from .c03 import rule_println_forced
     rule_println_forced(ctx, crate)
